@@ -443,28 +443,31 @@ def run(ctx: Ctx) -> None:
     ctx.check(ok, "R-C05.2", f"{comp.qualname}#bodies-compiled-under-the-tracker", comp.where, {"compile_inner_calls": len(inner)},
               "a function body is lowered without the order-edge tracker")
     tr = idx.find_func("track_hugr_side_effects", cc.name)
-    restore = [n for n in ast.walk(tr.node) if isinstance(n, ast.Assign) and ast.unparse(n.targets[0]) == "Hugr.add_node" and dotted(n.value) == "hugr_add_node"]
-    patched = [n for n in ast.walk(tr.node) if isinstance(n, ast.Assign) and ast.unparse(n.targets[0]) == "Hugr.add_node" and dotted(n.value) != "hugr_add_node"]
-    ok = bool(restore) and all(in_finally(tr.node, r) for r in restore) and bool(patched)
-    hs = next((n for n in ast.walk(tr.node) if isinstance(n, ast.FunctionDef) and n.name == "handle_side_effect"), None)
-    links = hs is not None and any(call_name(c) == "add_order_link" for c in ast.walk(hs) if isinstance(c, ast.Call)) \
-        and any(isinstance(n, ast.Assign) and "prev_node_with_side_effect[parent]" in ast.unparse(n.targets[0]) for n in ast.walk(hs))
-    if hs is not None:
-        # a container (Conditional / CFG / nested DFG) holding a side effect is itself a side effect of *its* parent:
-        # every early return of handle_side_effect must come after the recursive call on the parent
-        gh = CFG(hs)
-        early = [n for n in gh.nodes if isinstance(n.ast, ast.Return)]
-        rec_ok = all(gh.dominated_by(n, calls_any({"handle_side_effect"})) for n in early)
-        has_rec = any(call_name(c) == "handle_side_effect" for c in ast.walk(hs) if isinstance(c, ast.Call))
-        ctx.check(rec_ok and has_rec, "R-C05.2", f"{tr.qualname}.handle_side_effect#marks-enclosing-containers", tr.where,
-                  {"early_returns": len(early), "all_after_recursion_on_parent": rec_ok},
-                  "a conditional or loop that contains a side effect is not itself ordered against the side effects before/after it in the "
-                  "enclosing block")
-    wrapper = next((n for n in ast.walk(tr.node) if isinstance(n, ast.FunctionDef) and n.name == "hugr_add_node_with_order"), None)
-    gated = wrapper is not None and any(isinstance(n, ast.If) and "may_have_side_effect(op)" in ast.unparse(n.test) and "handle_side_effect" in ast.unparse(n) for n in ast.walk(wrapper))
-    ctx.check(ok and links and gated, "R-C05.2", f"{tr.qualname}#links-in-insertion-order-and-restores", tr.where,
-              {"restored_in_finally": ok, "links_after_previous": links, "only_side_effecting_ops": gated},
-              "side-effecting nodes are not chained in insertion order, or the patched Hugr.add_node leaks out of the compilation")
+    from . import c05_tracker
+    if not c05_tracker.run(ctx):
+        # fallback (the tracker cannot be interpreted): the shape of the tracker -- patch / restore in finally, link + remember, gate
+        restore = [n for n in ast.walk(tr.node) if isinstance(n, ast.Assign) and ast.unparse(n.targets[0]) == "Hugr.add_node" and dotted(n.value) == "hugr_add_node"]
+        patched = [n for n in ast.walk(tr.node) if isinstance(n, ast.Assign) and ast.unparse(n.targets[0]) == "Hugr.add_node" and dotted(n.value) != "hugr_add_node"]
+        ok = bool(restore) and all(in_finally(tr.node, r) for r in restore) and bool(patched)
+        hs = next((n for n in ast.walk(tr.node) if isinstance(n, ast.FunctionDef) and n.name == "handle_side_effect"), None)
+        links = hs is not None and any(call_name(c) == "add_order_link" for c in ast.walk(hs) if isinstance(c, ast.Call)) \
+            and any(isinstance(n, ast.Assign) and "prev_node_with_side_effect[parent]" in ast.unparse(n.targets[0]) for n in ast.walk(hs))
+        if hs is not None:
+            # a container (Conditional / CFG / nested DFG) holding a side effect is itself a side effect of *its* parent:
+            # every early return of handle_side_effect must come after the recursive call on the parent
+            gh = CFG(hs)
+            early = [n for n in gh.nodes if isinstance(n.ast, ast.Return)]
+            rec_ok = all(gh.dominated_by(n, calls_any({"handle_side_effect"})) for n in early)
+            has_rec = any(call_name(c) == "handle_side_effect" for c in ast.walk(hs) if isinstance(c, ast.Call))
+            ctx.check(rec_ok and has_rec, "R-C05.2", f"{tr.qualname}.handle_side_effect#marks-enclosing-containers", tr.where,
+                      {"early_returns": len(early), "all_after_recursion_on_parent": rec_ok},
+                      "a conditional or loop that contains a side effect is not itself ordered against the side effects before/after it in the "
+                      "enclosing block")
+        wrapper = next((n for n in ast.walk(tr.node) if isinstance(n, ast.FunctionDef) and n.name == "hugr_add_node_with_order"), None)
+        gated = wrapper is not None and any(isinstance(n, ast.If) and "may_have_side_effect(op)" in ast.unparse(n.test) and "handle_side_effect" in ast.unparse(n) for n in ast.walk(wrapper))
+        ctx.check(ok and links and gated, "R-C05.2", f"{tr.qualname}#links-in-insertion-order-and-restores", tr.where,
+                  {"restored_in_finally": ok, "links_after_previous": links, "only_side_effecting_ops": gated},
+                  "side-effecting nodes are not chained in insertion order, or the patched Hugr.add_node leaks out of the compilation")
 
     # ------------------------------------------------------------ R-C05.3
     syn = idx.find_class("ExprSynthesizer", "guppylang_internals.checker.expr_checker")
